@@ -13,6 +13,7 @@
 //! host values is balanced after every call.
 
 mod family;
+mod perm;
 
 use c00ref::*;
 use family::*;
@@ -102,14 +103,32 @@ fn locate(cfg: &Cfg, unit: usize) -> Option<(Vec<F>, Vec<Shape>)> {
     None
 }
 
+/// classes of the permuted-anonymous-record family of a tier
+fn perm_alpha(cfg: &Cfg) -> usize {
+    cfg.tier.pick(perm::PERM_QUICK, perm::PERM_CLASSES.len())
+}
+
+fn layout_units(cfg: &Cfg) -> usize {
+    segments(cfg).iter().map(|s| s.units()).sum()
+}
+
 struct UnitData {
-    fields: Vec<F>,
+    /// names of the field classes
+    fields: Vec<&'static str>,
     descs: Vec<TypeDesc>,
     /// (index into descs, program)
     progs: Vec<(usize, Prog)>,
 }
 
 fn build_unit(cfg: &Cfg, unit: usize) -> Option<UnitData> {
+    let lu = layout_units(cfg);
+    if unit >= lu {
+        // the units after the layouts: anonymous records in permuted field order
+        let sets = perm::field_sets(perm_alpha(cfg));
+        let cls = sets.get(unit - lu)?;
+        let (descs, progs) = perm::perm_programs(cls);
+        return Some(UnitData { fields: cls.iter().map(|c| c.name()).collect(), descs, progs });
+    }
     let (fields, shapes) = locate(cfg, unit)?;
     let mut descs = vec![];
     let mut progs = vec![];
@@ -120,7 +139,7 @@ fn build_unit(cfg: &Cfg, unit: usize) -> Option<UnitData> {
         descs.push(d);
         progs.extend(ps.into_iter().map(|p| (di, p)));
     }
-    Some(UnitData { fields, descs, progs })
+    Some(UnitData { fields: fields.iter().map(|f| f.name()).collect(), descs, progs })
 }
 
 impl UnitData {
@@ -149,7 +168,7 @@ impl UnitData {
         let (di, pr) = &self.progs[i];
         let d = &self.descs[*di];
         json!({
-            "layout": self.fields.iter().map(|f| f.name()).collect::<Vec<_>>(),
+            "layout": self.fields,
             "shape": d.shape.name(),
             "type": d.ty.print(),
             "kind": pr.kind,
@@ -207,7 +226,7 @@ impl Check for C02 {
         "C02"
     }
     fn units(&self, cfg: &Cfg) -> usize {
-        segments(cfg).iter().map(|s| s.units()).sum()
+        layout_units(cfg) + perm::field_sets(perm_alpha(cfg)).len()
     }
     fn case_timeout_s(&self, cfg: &Cfg) -> f64 {
         // generous: on a heavily loaded machine the one-second batch compile
@@ -385,7 +404,7 @@ impl Check for C02 {
     fn describe(&self, cfg: &Cfg, unit: usize, sub: u64) -> Value {
         let Some(u) = build_unit(cfg, unit) else { return json!({"unit": unit}) };
         if sub == SUB_SETUP || sub == BATCH {
-            return json!({"phase": "batch compile", "layout": u.fields.iter().map(|f| f.name()).collect::<Vec<_>>(), "program": print_program(&u.batch())});
+            return json!({"phase": "batch compile", "layout": u.fields, "program": print_program(&u.batch())});
         }
         let i = (sub >> 8) as usize;
         if i >= u.progs.len() {
